@@ -8,12 +8,14 @@ CONSTANTS
     Schedules <- MCSchedulesThorough
     Base = 420
     SpanLens <- MCSpanLensThorough
-    DBRPs = {"db.rp", "db.rp2", "other.rp"}
+    DBRPs <- MCDBRPs
+    DefaultRPs <- MCDefaultRPs
     ChildLists <- MCChildLists
     WrapUser = TRUE
     TruncNext = TRUE
     CloneSharesGB = TRUE
     FluxEndsCollection = FALSE
+    ResolveEmptyRP = FALSE
 INVARIANTS
     TypeOK
     RangeIsExact
